@@ -40,7 +40,13 @@ fn arithmetic_program(rng: &mut Rng, n: usize) -> (String, Vec<String>) {
         }
         expected.push(format!("r{i} {val}\n"));
     }
-    src.push_str("-> END\n");
+    // known faults at the end: each must reach the host as an error
+    match rng.below(3) {
+        0 => src.push_str("fault {5 / z}\n"),
+        1 => src.push_str("fault {5 % z}\n"),
+        _ => src.push_str("~ lo = 7 / z\n"),
+    }
+    src.push_str("after the fault\n-> END\n");
     (src, expected)
 }
 
@@ -155,10 +161,10 @@ pub fn run(cfg: &Cfg) -> i32 {
         cfg,
         "exploration",
         "case = (compiler-accepted program, host-call history): programs are (a) lists of int expressions over extreme operands whose 32-bit wrapped results are computed by the monitor, (b) generated programs after one source-level fault-prone mutation (number -> 0/extreme, operator -> / or %, deleted divert / tunnel return / function return, string where a number is expected, divert through an int variable, SEED_RANDOM(i32::MAX) + RANDOM over the full range, duplicated line), (c) corpus stories; histories include continues after errors, continue_maximally, save/load, flow switches, path jumps to arbitrary knots (also knots that expect arguments), host assignments; with and without an error handler; externals bound or left to their fallbacks. Monitored: no panic (caught and attributed to a repository function), no process death (journal), (a) printed values equal the wrapped values, every runtime error reaches the host (Err result or handler callback, then can_continue is false), and after a reported error reset_state + replay equals a fresh story. A per-case transcript hash is written for the debug-vs-release comparison done by the driver. Non-trivial = the history executed >= 3 calls; distinct by (program, history).",
-        cfg.pick(400, 10_000),
+        cfg.pick(2_500, 50_000),
     );
     rep.assumptions.push(format!("this worker ran the {profile} profile; the driver compares the per-case transcript hashes of the debug and release workers"));
-    let nprog = cfg.get_u64("programs", cfg.pick(300, 12_000));
+    let nprog = cfg.get_u64("programs", cfg.pick(2_000, 40_000));
     let mut hashes: Vec<(String, u64)> = Vec::new();
     let mut gc = GenCfg::rich();
     gc.externals = true;
@@ -216,12 +222,13 @@ pub fn run(cfg: &Cfg) -> i32 {
         for h in 0..cfg.pick(3, 6) as u64 {
             let handler = h % 2 == 0;
             let host = host_for(&c, handler, h % 3 != 2);
+            let plain = kind == "arithmetic" && h == 0;
             let hc = HistCfg {
                 max_ops: 40,
                 flows: h % 3 == 1,
                 jumps: h % 2 == 1,
                 cont_max: h % 3 == 0,
-                set_vars: h % 2 == 0,
+                set_vars: h % 2 == 0 && !plain,
                 stop_at_end: true,
                 // jump anywhere: also into knots that expect arguments, functions, tunnels
                 jump_targets: Some(c.info.knots.clone()),
@@ -252,12 +259,17 @@ pub fn run(cfg: &Cfg) -> i32 {
                 rep.count("fuel-exhausted(runaway story stopped by the hook)");
             }
             let tr: String = hist.recs.iter().map(|r| format!("{:?}|{:?}|{:?}|{:?}\n", r.op, r.res, r.snap, crate::lockstep::canon_events(&r.events))).collect();
-            hashes.push((format!("{}|{h}", c.name), fnv(&tr)));
+            hashes.push((format!("{}#{i}|{h}", c.name), fnv(&tr)));
+            if cfg.get("dump-case") == Some(&format!("{}#{i}|{h}", c.name)) {
+                println!("DUMP {}|{h}\n{tr}", c.name);
+            }
             // (a) wrapped values
             if let Some(exp) = &expected
                 && h == 0
             {
-                let got: Vec<String> = hist.recs.iter().filter_map(|r| r.res.clone().ok()).filter(|t| t.starts_with('r')).collect();
+                // (continue_maximally returns several lines at once)
+                let all: String = hist.recs.iter().filter(|r| r.op.starts_with("Cont")).filter_map(|r| r.res.clone().ok()).collect();
+                let got: Vec<String> = all.split_inclusive('\n').filter(|t| t.starts_with('r')).map(|t| t.to_string()).collect();
                 rep.count_n("wrapped-results-compared", exp.len() as u64);
                 if &got != exp {
                     let first = exp.iter().zip(got.iter()).find(|(a, b)| a != b).map(|(a, b)| json!({"expected": a, "got": b}));
@@ -267,6 +279,53 @@ pub fn run(cfg: &Cfg) -> i32 {
                     w["got_lines"] = json!(got.len());
                     w["log"] = recs_json(&hist.recs);
                     rep.violation("arithmetic/wrapped-value", w);
+                }
+            }
+            // predicted faults: the division by zero at the end of an arithmetic program, and falling off the end
+            // of kprobe after a jump with call-stack reset, must reach the host
+            if expected.is_some() && h == 0 {
+                let surfaced = hist.recs.iter().any(|r| {
+                    matches!(&r.res, Err((_, m)) if m.contains("zero")) || r.events.iter().any(|e| e.starts_with("handler E") && e.contains("zero"))
+                });
+                let printed_after = hist.recs.iter().any(|r| matches!(&r.res, Ok(t) if t.contains("after the fault")));
+                rep.count("predicted-fault:division-by-zero");
+                if !surfaced || printed_after {
+                    let mut w = witness_base.clone();
+                    w["log_tail"] = recs_json(&hist.recs[hist.recs.len().saturating_sub(4)..]);
+                    w["surfaced"] = json!(surfaced);
+                    w["story_went_on_past_the_fault"] = json!(printed_after);
+                    rep.violation("fault-not-reported/division-by-zero", w);
+                }
+            }
+            let could_play = hist.recs.iter().any(|r| r.op == "Cont" && r.res.is_ok());
+            if c.info.knots.iter().any(|k| k == "kprobe") && !p.story.has_error() && !hist.fuel && could_play {
+                let r = std::panic::catch_unwind(std::panic::AssertUnwindSafe(|| {
+                    let before = p.recs.len();
+                    p.apply(&Op::ChoosePath("kprobe".into(), true));
+                    for _ in 0..3 {
+                        if !p.story.can_continue() {
+                            break;
+                        }
+                        p.apply(&Op::Cont);
+                    }
+                    p.recs[before..].to_vec()
+                }));
+                rep.count("predicted-fault:out-of-content-after-jump");
+                match r {
+                    Err(_) => {
+                        rep.panic_caught("probe-jump", witness_base.clone());
+                    }
+                    Ok(tail) => {
+                        let surfaced = tail.iter().any(|r| {
+                            matches!(&r.res, Err((_, m)) if m.contains("ran out of content")) || r.events.iter().any(|e| e.starts_with("handler E") && e.contains("ran out of content"))
+                        });
+                        if !surfaced {
+                            let mut w = witness_base.clone();
+                            w["history"] = json!(hist.ops.iter().map(|o| o.show()).collect::<Vec<_>>());
+                            w["after_jump_to_kprobe"] = recs_json(&tail);
+                            rep.violation("fault-not-reported/out-of-content-after-jump", w);
+                        }
+                    }
                 }
             }
             // errors must be visible to the host and stop the story
